@@ -22,7 +22,10 @@ RULE = ("random FASTA texts: 1..4 sequences (empty ones included), each a concat
         "of the access cases through `cnvkit.py access` in-process (-s/--min-gap-size[=], -x/--exclude[=] "
         "repeated, -o/--output, -s left out, options before or after the FASTA) and 3 (quick) / 12 (thorough) "
         "as a subprocess `python -m cnvlib.cnvkit access FASTA -s N -x BED` with the regions read from "
-        "standard output; the contig-name rule on assembled names, and a small malformed stream.  "
+        "standard output; 40 (quick) / 600 (thorough) 'symbols' files whose sequences also hold '>' (never first on a "
+        "physical line: such a line IS a header), '*', '-', '.', digits -- ordinary non-N characters to the scanner "
+        "(Props/C13Text.lean) --, one or two long physical lines per record; "
+        "the contig-name rule on assembled names, and a small malformed stream.  "
         "non-trivial = some sequence has both N and non-N characters; distinct = distinct case by hash")
 EXHAUSTIVE = {"quick": False, "thorough": False}
 ASSUMPTIONS = [
@@ -291,6 +294,9 @@ def corpus():
         _mk("get_regions", "corpus", ["c"], ["c"], ["ACNNGTTNA"], fixed(5)),
         _mk("get_regions", "corpus", ["c"], ["c"], ["nnnnNNNNacgtN"], fixed(3)),      # lowercase n is not a mask
         _mk("get_regions", "corpus", ["c", "d"], ["c x", "d"], ["NNNN", ""], fixed(2)),
+        # '>' that is not the first character of a line, '*', '-' are ordinary characters (Props/C13Text.lean)
+        _mk("get_regions", "corpus", ["c"], ["c"], ["AC>GNN*-N>A"], two),
+        _mk("get_regions", "corpus", ["c"], ["c"], ["AC>GNN*-N>A"], fixed(4)),
         # subtract: nested / overlapping exclusions (finding F, fixed), touching edges; join boundary gap == min_gap
         _mk("access", "corpus-F", ["chr1"], ["chr1"], ["A" * 100], fixed(60),
             beds=[[["chr1", 10, 50], ["chr1", 20, 30]]], gap=0, skip=True),
@@ -364,6 +370,29 @@ def _gen_cli(rng, sub=False):
     return _mk("access_cli", "cli-stdout" if sub else "cli", names, headers, seqs, style, **extra)
 
 
+def _gen_symbols(rng):
+    """sequences over an alphabet with '>' / '*' / '-' / '.' / digits, written so that no physical line starts with '>'
+    (a line that starts with '>' IS a header line); everything but the capital N is an ordinary character"""
+    names = rng.sample(CANON[:12], rng.randint(1, 3))
+    seqs = []
+    for _ in names:
+        alpha = rng.choice(["ACGT>", "ACGTN>*-.", "acgtn>N", "AC>N", "ACGTN*-.0123456789"])
+        q = "".join(rng.choice(alpha + "NN") for _ in range(rng.choice([1, 2, 5, 12, 40, 120])))
+        seqs.append(q)
+    if rng.random() < 0.5:
+        style = {"kind": "twoline", "width": 60, "widths": [60], "eol": rng.choice(["\n", "\r\n"]),
+                 "trail": rng.choice(["", " ", "\t"]), "final_nl": rng.random() < 0.8, "blank_end": 0,
+                 "blank_mid": False}
+        seqs = [("A" + q[1:]) if q.startswith(">") else q for q in seqs]
+    else:
+        w = rng.choice([3, 5, 8, 60])
+        style = {"kind": "fixed", "width": w, "widths": [w], "eol": "\n", "trail": "", "final_nl": True,
+                 "blank_end": 0, "blank_mid": False}
+        # no physical line may start with '>'
+        seqs = ["".join(("A" if (ch == ">" and k % w == 0) else ch) for k, ch in enumerate(q)) for q in seqs]
+    return names, list(names), seqs, style
+
+
 def gen_cases(rng, tier):
     n_acc, n_scan, n_names, n_bad, n_cli, n_sub = {
         "quick": (800, 300, 300, 30, 110, 3), "thorough": (20000, 6000, 3000, 300, 3000, 12),
@@ -378,6 +407,13 @@ def gen_cases(rng, tier):
         cases.append(_gen_cli(rng))
     for _ in range(n_sub):
         cases.append(_gen_cli(rng, sub=True))
+    for k in range({"quick": 40, "thorough": 600, "search": 60}[tier]):
+        names, headers, seqs, style = _gen_symbols(rng)
+        if k % 2:
+            cases.append(_mk("get_regions", "scan-symbols", names, headers, seqs, style))
+        else:
+            cases.append(_mk("access", "access-symbols", names, headers, seqs, style, beds=_gen_beds(rng, names, seqs),
+                             gap=_gen_gap(rng, seqs), skip=True))
     cases += _name_cases(rng, n_names)
     # malformed stream: outside the property's quantifier; only model == code is checked
     for k in range(n_bad):
@@ -503,6 +539,8 @@ def to_line(case, impl):
         for k in ("gap", "skip"):       # skip / gap left out: the driver takes the defaults read from the source
             if k in i:
                 inp[k] = i[k]
+        if op == "access_cli":
+            inp["cli"] = True           # `-s` left out: the driver takes the command line's own default
         op = "access"
     line = {"op": op, "in": inp}
     if not (isinstance(impl, dict) and "__error__" in impl) and not _malformed(case):
